@@ -131,9 +131,12 @@ func runDriverStats(repo, verifDir string, d *replayDriver, obligation, input st
 // search with an independent oracle written from the property statement - it is
 // reported as such and never counted among the discharged obligations - but an input
 // on which the real code breaks the oracle is a violation with a concrete failing input.
-func boundedStandIns(repo, verifDir string, fnNames []string, seed, budgetS int) (results []map[string]any, found []map[string]any) {
+func boundedStandIns(repo, verifDir string, fnNames []string, seed, budgetS int, only []string) (results []map[string]any, found []map[string]any) {
 	seen := map[string]bool{}
 	for _, d := range loadDrivers(verifDir) {
+		if only != nil && !contains(only, d.File) {
+			continue
+		}
 		hit := ""
 		for _, m := range d.Match {
 			for _, fn := range fnNames {
